@@ -298,6 +298,16 @@ def directed_polarity(root, fl):
     dl = root.locals_named("directed")
     if not dl:
         return None
+    # `directed = match v { "directed" => true, .. }` assigns the constants to a temporary that is then moved
+    # into the variable: the temporaries count as the variable
+    dl = set(dl)
+    changed = True
+    while changed:
+        changed = False
+        for s in root.stmts():
+            if s.k == "assign" and s.lhs.local in dl and not s.lhs.proj and s.rv.k == "use" and s.rv.ops[0].place is not None and not s.rv.ops[0].place.proj and s.rv.ops[0].place.local not in dl and root.local_ty(s.rv.ops[0].place.local) == "bool":
+                dl.add(s.rv.ops[0].place.local)
+                changed = True
     out = {}
     hir = root.item.get("hir") or {}
     # typed HIR: match arms with string literal patterns whose bodies assign directed
